@@ -108,6 +108,48 @@ pub fn concat(ctx: &mut Ctx) {
             } else {
                 descs.push(json!({"archive":desc,"split_max":null}));
             }
+            // the same destination split again with --overwrite and another maximum (smaller: the new parts are shorter than the
+            // files they replace; larger: fewer parts): every part of the new set is within the new maximum, ends with its end
+            // marker, and the set reads back to the original entries
+            if !parts.is_empty() && variant == 0 && case % 2 == 0 {
+                let max2 = if case % 4 == 0 { rng.gen_range(60..=parts.iter().map(|p| p.len()).max().unwrap_or(61).max(61)) } else { full.len() + rng.gen_range(0..400) };
+                let dir = format!("s{j}");
+                let r = run_pna(&sbx, &sbx.root, &["--quiet", "split", &name, "--max-size", &max2.to_string(), "--out-dir", &dir, "--overwrite"], None, 60, &[]);
+                ctx.oracle_eval();
+                ctx.count("resplit-over-an-existing-part-set");
+                if !r.ok() {
+                    // a rejected maximum has already replaced part 1 by a header-only file: put the first set back and go on with it
+                    for (i, b) in parts.iter().enumerate() { std::fs::write(sbx.path(&format!("{dir}/in{j}.part{}.pna", i + 1)), b).unwrap(); }
+                    ctx.count("resplit-rejected");
+                }
+                if r.ok() {
+                    let mut newparts: Vec<Vec<u8>> = vec![];
+                    let mut carry: refdec::Chunks = vec![];
+                    let mut why: Option<String> = None;
+                    // a result that fits one part is renamed to the part-less name; otherwise follow the continuation markers
+                    let single = std::fs::read(sbx.path(&format!("{dir}/in{j}.pna"))).ok();
+                    for i in 1.. {
+                        let b = match (&single, i) {
+                            (Some(b), 1) => b.clone(),
+                            (Some(_), _) => { why = Some("a single-part result carries a continuation marker".into()); break; }
+                            (None, _) => match std::fs::read(sbx.path(&format!("{dir}/in{j}.part{i}.pna"))) { Ok(b) => b, Err(_) => { why = Some(format!("part {i} is missing although the part before it carries a continuation marker")); break; } },
+                        };
+                        if b.len() > max2 { why = Some(format!("part {i} has {} bytes, the maximum is {max2}", b.len())); break; }
+                        match refdec::strict_archive(&b, std::mem::take(&mut carry), true) {
+                            Err(e) => { why = Some(format!("part {i}: {e}")); break; }
+                            Ok(ra) => { carry = ra.open; let next = ra.has_next; newparts.push(b); if !next { break; } }
+                        }
+                    }
+                    if why.is_none() && meaning(&canon::read_multipart_stream(&newparts)) != meaning(&canon::read_multipart_stream(&[full.clone()])) { why = Some("the new part set does not read back to the original entries".into()); }
+                    if let Some(why) = why {
+                        ctx.violation("C04", "splitting again over an existing part set with --overwrite leaves a part set that is not within the maximum, not well-formed or not the original", json!({"archive":desc,"first_max":descs.last(),"second_max":max2,"why":why}));
+                        ctx.violation("C14", "splitting again over an existing part set with --overwrite leaves files that are not well-formed archives", json!({"second_max":max2,"why":why}));
+                    }
+                    // the concat below uses the new set
+                    if newparts.is_empty() { for (i, b) in parts.iter().enumerate() { std::fs::write(sbx.path(&format!("{dir}/in{j}.part{}.pna", i + 1)), b).unwrap(); } }
+                    if !newparts.is_empty() { first = if single.is_some() { format!("{dir}/in{j}.pna") } else { format!("{dir}/in{j}.part1.pna") }; parts = newparts; }
+                }
+            }
             if parts.is_empty() {
                 parts.push(full.clone());
             }
